@@ -11,7 +11,7 @@
 use crate::entropy::Mode;
 use crate::guard::Unwind;
 use crate::report::{self, Report, RunOutcome, Stats, Tier, Violation};
-use crate::rng::{hash_u64, Prng};
+use crate::rng::{hash_u64, hex, Prng};
 use crate::signers::{self, Keys, Op, OpResult, WorldPlan};
 use crate::variant::{Variant, V1024, V512};
 use crate::world::{self, KeyPool};
@@ -719,6 +719,59 @@ fn replay_deep_rerun(doc: &Value) -> Option<String> {
     }
 }
 
+/// "<n> <seed hex> <root>" lines of corpus/C01/selected-seeds.txt
+fn selected_seeds_corpus() -> Vec<(usize, [u8; 32], i64)> {
+    let p = report::verif_root().join("corpus").join(PROP).join("selected-seeds.txt");
+    let mut v = Vec::new();
+    if let Ok(s) = std::fs::read_to_string(p) {
+        for l in s.lines() {
+            let l = l.trim();
+            if l.is_empty() || l.starts_with('#') {
+                continue;
+            }
+            let mut it = l.split_whitespace();
+            if let (Some(a), Some(b), Some(c)) = (it.next(), it.next(), it.next()) {
+                if let (Ok(n), Some(seed), Ok(root)) = (a.parse::<usize>(), crate::rng::unhex(b).and_then(|x| <[u8; 32]>::try_from(x).ok()), c.parse::<i64>()) {
+                    if n == 512 || n == 1024 {
+                        v.push((n, seed, root));
+                    }
+                }
+            }
+        }
+    }
+    v
+}
+
+/// A key whose seed was selected with the reference model of key generation's candidate stream
+/// (`reference::keygen`): the first candidate's f vanishes at an end root of X^n + 1 mod q, so key
+/// generation has to discard it. The key is generated here, from the seed, and signs three messages.
+fn selected_seed_run(seed: u64, idx: u64, n: usize, key_seed: [u8; 32], root: i64) -> RunOutcome {
+    let mut rng = Prng::new(report::run_seed(seed, "C01selected", idx));
+    let ops: Vec<Op> = (0..3).map(|_| Op::Sign { key: 0, msg: world::message(&mut rng), stream: rng.next_u64(), mode: Some(Mode::Uniform), norm_rejects: 0, compress_fails: 0 }).collect();
+    let plan = WorldPlan { n, key_seeds: vec![key_seed], sched_seed: rng.next_u64(), switch_exp: None, boundary: 0, threads: vec![ops], align: None };
+    let mut out = RunOutcome::default();
+    match run_plan_dyn(&plan) {
+        Some(v) => {
+            out.stats = v.stats;
+            if let Some((class, detail)) = v.class {
+                out.violations.push(Violation { property: PROP, class, detail: format!("{} (key seed selected: first candidate f vanishes at root {} of X^{}+1)", detail, root, n), replay: plan.to_json(), run: (1 << 41) + 500 + idx });
+            }
+        }
+        None => {
+            out.violations.push(Violation {
+                property: PROP,
+                class: format!("keygen{} fails on a seed", n),
+                detail: format!("key seed {} (selected: first candidate f vanishes at root {})", hex(&key_seed), root),
+                replay: plan.to_json(),
+                run: (1 << 41) + 500 + idx,
+            });
+        }
+    }
+    out.stats.inc("runs");
+    out.stats.inc(&format!("runs.selected_key_seeds.{}", n));
+    out
+}
+
 pub fn replay(doc: &Value) -> Option<String> {
     if doc.get("kind").and_then(|k| k.as_str()) == Some("deep-rerun") {
         return replay_deep_rerun(doc);
@@ -811,11 +864,32 @@ pub fn check(tier: Tier, seed: u64) -> i32 {
             rep.stats.notes.insert("NOTE: no instrumented (deep) build available; the function-entry pre-emption batch was skipped".into());
         }
     }
+    // key seeds selected with the reference model of key generation's candidate stream: the pinned ones
+    // (corpus/C01/selected-seeds.txt, found by an offline scan of 400000 seeds per variant with the same
+    // model) and, in the thorough tier, fresh ones selected at run time
+    {
+        let mut jobs: Vec<(usize, [u8; 32], i64)> = selected_seeds_corpus();
+        rep.stats.add("selected_key_seeds.pinned", jobs.len() as u64);
+        if tier == Tier::Thorough {
+            let scan = 60_000u64;
+            for n in [512usize, 1024] {
+                for (s, r) in world::mine_keygen_seeds(seed, n, scan, 64, w) {
+                    jobs.push((n, s, r));
+                }
+            }
+            rep.stats.add("key_seeds_scanned_with_the_candidate_model", 2 * scan);
+        }
+        let out = report::parallel_runs(jobs.len() as u64, w, |i| {
+            let (n, s, r) = jobs[i as usize];
+            selected_seed_run(seed, i, n, s, r)
+        });
+        rep.absorb(out);
+    }
     if rep.stats.counters.get("harness.pool_key_not_loadable").copied().unwrap_or(0) > 0 {
         eprintln!("HARNESS-ERROR: pool keys could not be decoded by SecretKey/PublicKey::from_bytes on this tree (see C05)");
         return 2;
     }
-    rep.rule = "a case is one sign (or verifier-thread verify) operation inside a seeded multi-thread plan: 1-8 signer threads and 0-2 verifier threads share one key under the baton scheduler (pre-emption probability 2^-k per entropy draw, k in 3..20 chosen per run from a budget of 10..6000 expected switches, plus operation boundaries), each sign with its own simulator entropy stream in mode E1/E2/E3/E4 and optional buggify-forced retries; a deep batch run by a build in which every function entry of the code under test is a yield point (falcon-rust compiled with -Zinstrument-mcount) puts 2-6 signer/verifier threads on 24+ distinct keys so that the scheduler can pre-empt inside verify and the decoders; a further eighth of the runs are mixed-variant runs in which the same threads alternate between a Falcon-512 and a Falcon-1024 key (sign, then verify on the same thread); non-trivial = the call was pre-empted mid-call, or took a natural or forced retry, or had an entropy fault land; distinct = distinct (schedule trace, thread, resulting signature)".into();
+    rep.rule = "a case is one sign (or verifier-thread verify) operation inside a seeded multi-thread plan: 1-8 signer threads and 0-2 verifier threads share one key under the baton scheduler (pre-emption probability 2^-k per entropy draw, k in 3..20 chosen per run from a budget of 10..6000 expected switches, plus operation boundaries), each sign with its own simulator entropy stream in mode E1/E2/E3/E4 and optional buggify-forced retries; a deep batch run by a build in which every function entry of the code under test is a yield point (falcon-rust compiled with -Zinstrument-mcount) puts 2-6 signer/verifier threads on 24+ distinct keys so that the scheduler can pre-empt inside verify and the decoders; a few dozen keys come from seeds selected (offline among 400000 per variant and pinned in corpus/C01/selected-seeds.txt; in the thorough tier also among 60000 fresh ones per variant at run time) with a reference model of key generation's candidate stream because the first candidate's f vanishes at an end root of X^n+1 mod q and must be discarded; a further eighth of the runs are mixed-variant runs in which the same threads alternate between a Falcon-512 and a Falcon-1024 key (sign, then verify on the same thread); non-trivial = the call was pre-empted mid-call, or took a natural or forced retry, or had an entropy fault land; distinct = distinct (schedule trace, thread, resulting signature)".into();
     rep.assumptions = vec![
         "all of sign's randomness flows through the hooked generator (hook H1); a generator created elsewhere is only visible to C08(b) and to the interleaved==sequential comparison".into(),
         "keys come from a per-invocation pool generated by the current tree".into(),
